@@ -408,6 +408,82 @@ func c02(c *ctx) {
 		}
 		r.Analysed["signature_cache_accesses"] = n
 	}
+
+	// ------------------------------------------------------------------ R8
+	r.Rule("R8", "FLOW", "the committee a certificate is checked against is the root chain's validator set for exactly the asked (root chain, root height, chain): Controller.LoadCommittee returns RCManager.GetValidatorSet(rootChainId, this chain, rootHeight) with its own parameters, and a memoised result is looked up under every parameter the computation depends on", 2)
+	loadCommittee := c.fn("controller.(*Controller).LoadCommittee")
+	getVS := c.p.IfaceMethod("lib", "RCManagerI", "GetValidatorSet")
+	if loadCommittee != nil && r.Anchor(getVS != nil, "lib.RCManagerI.GetValidatorSet") {
+		// the computing call and the parameters it depends on
+		var deps []string
+		nCalls := 0
+		instrs(loadCommittee, func(in ssa.Instruction) {
+			if cc := callCommon(in); cc != nil && cc.IsInvoke() && cc.Method == getVS {
+				nCalls++
+				var ps []string
+				for _, a := range cc.Args {
+					ps = append(ps, c.p.path(a))
+				}
+				want := []string{"$1", "$0.Config.ChainId", "$2"}
+				r.Check(strings.Join(ps, ",") == strings.Join(want, ","), "R8/LoadCommittee/source-args", c.p.Pos(in.Pos()), "GetValidatorSet("+strings.Join(ps, ", ")+")",
+					"LoadCommittee asks the root chain manager for GetValidatorSet("+strings.Join(ps, ", ")+"), expected (rootChainId, this chain's id, rootHeight): a certificate would be checked against another committee")
+				for i := range loadCommittee.Params {
+					tok := fmt.Sprintf("$%d", i)
+					for _, pth := range ps {
+						if i > 0 && strings.Contains(pth, tok) {
+							deps = append(deps, tok)
+						}
+					}
+				}
+			}
+		})
+		r.Check(nCalls >= 1, "R8/LoadCommittee/source", c.p.Pos(loadCommittee.Pos()), "LoadCommittee obtains the set from the root chain manager", "LoadCommittee no longer calls RCManager.GetValidatorSet (rule needs re-reading)")
+		// every returned set is that call's result, or a stored copy found under all of deps
+		for _, b := range loadCommittee.Blocks {
+			ret, ok := b.Instrs[len(b.Instrs)-1].(*ssa.Return)
+			if !ok || len(ret.Results) == 0 {
+				continue
+			}
+			pth := c.p.path(ret.Results[0])
+			for _, alt := range splitPhi(pth) {
+				if strings.Contains(alt, ".GetValidatorSet(") || alt == "nil" || strings.HasPrefix(alt, "struct{}") || strings.HasPrefix(alt, "new(ValidatorSet)") {
+					continue
+				}
+				missing := ""
+				for _, d := range deps {
+					if !strings.Contains(alt, "["+d+"]") && !strings.Contains(alt, d+",") && !strings.Contains(alt, d+")") {
+						missing = d
+					}
+				}
+				r.Check(missing == "", "R8/LoadCommittee/returned-set", c.p.Pos(ret.Pos()), "returns "+alt,
+					"LoadCommittee can return "+alt+", a stored validator set that is not looked up under parameter "+missing+" of the lookup it memoises: after that parameter changes (a root-chain switch) certificates are checked against a committee that is no longer in force")
+			}
+		}
+	}
+}
+
+// splitPhi splits a rendered phi(a|b|c) path into its alternatives (top level only).
+func splitPhi(p string) []string {
+	if !strings.HasPrefix(p, "phi(") || !strings.HasSuffix(p, ")") {
+		return []string{p}
+	}
+	body := p[4 : len(p)-1]
+	var out []string
+	depth, start := 0, 0
+	for i, ch := range body {
+		switch ch {
+		case '(', '[':
+			depth++
+		case ')', ']':
+			depth--
+		case '|':
+			if depth == 0 {
+				out = append(out, body[start:i])
+				start = i + 1
+			}
+		}
+	}
+	return append(out, body[start:])
 }
 
 // lookupStd resolves a function of a non-canopy package that is part of the loaded program.
